@@ -74,24 +74,26 @@ Inductive c01_clause :=
 Definition find_obs (f : fmt) (obs : list pentry) (path : str) : option pentry :=
   find (fun e => seqb (logical_path f (pe_path e)) path) obs.
 
+Definition check_attrs (f : fmt) (hashes : list (str * str)) (e : pentry) (l : lentry) : list c01_clause :=
+  let fail (b : bool) (c : c01_clause) := if b then [] else [c] in
+  fail (pkind_eqb (pe_kind e) (l_kind l)) PKind
+  ++ match l_kind l with
+     | KFile =>
+         if match l_data l with DChangelog => true | _ => false end then [] else
+         fail (N.eqb (pe_mode e) (l_mode l)) PMode ++ fail (seqb (pe_uname e) (l_owner l)) POwner
+         ++ fail (seqb (pe_gname e) (l_group l)) PGroup
+         ++ fail (is_tzero (l_mtime l) || Z.eqb (pe_mtime e) (match f with FRpm => u32 (l_mtime l) | _ => l_mtime l end)) PMtime
+         ++ fail (data_matches hashes (l_data l) (pe_data e)) PData
+     | KDir =>
+         fail (N.eqb (pe_mode e) (l_mode l)) PMode ++ fail (seqb (pe_uname e) (l_owner l)) POwner
+         ++ fail (seqb (pe_gname e) (l_group l)) PGroup
+     | KSymlink => fail (seqb (pe_link e) (l_link l)) PLink
+     end.
+
 Definition check_entry (f : fmt) (hashes : list (str * str)) (obs : list pentry) (l : lentry) : list c01_clause :=
   match find_obs f obs (l_path l) with
   | None => [PPathsExact]
-  | Some e =>
-      let fail (b : bool) (c : c01_clause) := if b then [] else [c] in
-      fail (pkind_eqb (pe_kind e) (l_kind l)) PKind
-      ++ match l_kind l with
-         | KFile =>
-             if match l_data l with DChangelog => true | _ => false end then [] else
-             fail (N.eqb (pe_mode e) (l_mode l)) PMode ++ fail (seqb (pe_uname e) (l_owner l)) POwner
-             ++ fail (seqb (pe_gname e) (l_group l)) PGroup
-             ++ fail (is_tzero (l_mtime l) || Z.eqb (pe_mtime e) (match f with FRpm => u32 (l_mtime l) | _ => l_mtime l end)) PMtime
-             ++ fail (data_matches hashes (l_data l) (pe_data e)) PData
-         | KDir =>
-             fail (N.eqb (pe_mode e) (l_mode l)) PMode ++ fail (seqb (pe_uname e) (l_owner l)) POwner
-             ++ fail (seqb (pe_gname e) (l_group l)) PGroup
-         | KSymlink => fail (seqb (pe_link e) (l_link l)) PLink
-         end
+  | Some e => check_attrs f hashes e l
   end.
 
 Definition check_C01 (f : fmt) (hashes : list (str * str)) (cs : list content) (obs : list pentry) : list c01_clause :=
@@ -104,5 +106,16 @@ Definition check_C01 (f : fmt) (hashes : list (str * str)) (cs : list content) (
   ++ fail (forallb (fun e => pe_inpayload e ||
                      existsb (fun c => seqb (c_typ c) TGhost && seqb (location c) (logical_path f (pe_path e))) cs) obs) PGhostPayload
   ++ flat_map (check_entry f hashes in_payload_obs) want.
+
+(* the types a prepared entry can have *)
+Definition prepared_typ (t : str) : bool :=
+  typ_in t [TFile; TDir; TImplicitDir; TSymlink; TConfig; TConfigNoReplace; TConfigMissingOK;
+            TGhost; TDoc; TLicence; TLicense; TReadme; TDebChangelog].
+
+(* the envelope of the payload theorem: modes are permission + special bits *)
+Definition mode_smallb (c : content) : bool := N.ltb (fi_mode (the_fi c)) 4096.
+
+Definition envelope_C01 (cs : list content) : bool :=
+  forallb mode_smallb cs && forallb (fun c => is_dir_typ (c_typ c) || negb (seqb (location c) [])) cs.
 
 Definition holds_C01 f hashes cs obs : bool := match check_C01 f hashes cs obs with [] => true | _ => false end.
